@@ -157,4 +157,11 @@ func init() {
 		"slices.Contains(j.approvals, req.Key)", "func() bool { _, ok := slices.BinarySearch(j.approvals, req.Key); return ok }()", "C11.R6.search")
 	mut("C11", "the pledging node records the cluster key on a copy of its configuration", "aspen/internal/cluster/pledge/pledge.go",
 		"				cfg.ClusterKey = res.ClusterKey\n				return res, arbitrate(cfg)", "				withKey := cfg\n				withKey.ClusterKey = res.ClusterKey\n				return res, arbitrate(cfg)", "C11.R5.clusterkey")
+
+	mut("C06", "an operation that names the host as leaseholder skips the lease lookup", "aspen/internal/kv/lease.go",
+		"	lh, err := la.getLease(ctx, op.Key)\n", "	if op.Leaseholder == la.Cluster.HostKey() {\n		return op, nil\n	}\n	lh, err := la.getLease(ctx, op.Key)\n", "C06.R6.lease")
+	mut("C12", "sync returns early when the initiator knows more members", "aspen/internal/cluster/gossip/gossip.go",
+		"	for _, n := range snap.Nodes {\n\n		// If we have a node that the initiator doesn't have,", "	if len(sync.Digests) > len(snap.Nodes) {\n		return ack\n	}\n	for _, n := range snap.Nodes {\n\n		// If we have a node that the initiator doesn't have,", "C12.R2.complete")
+	mut("C12", "sync skips the digest of the host itself", "aspen/internal/cluster/gossip/gossip.go",
+		"		n, ok := snap.Nodes[dig.Key]\n\n		// If we have a more recent", "		if dig.Key == snap.HostKey {\n			continue\n		}\n		n, ok := snap.Nodes[dig.Key]\n\n		// If we have a more recent", "C12.R2.complete")
 }
